@@ -20,7 +20,7 @@ func ParseRaw(data []byte) ([]Raw, error) {
 			return nil, err
 		}
 		item := Raw{Class: rawItem.Class, Tag: rawItem.Tag, Bytes: rawItem.Bytes, FullBytes: rawItem.FullBytes}
-		if rawItem.IsCompound {
+		if rawItem.IsCompound && len(rawItem.Bytes) > 0 {
 			children, err := ParseRaw(rawItem.Bytes)
 			if err != nil {
 				return nil, err
